@@ -25,15 +25,29 @@
 (*                  "be_cpu"     best-effort strategy, cpu satisfaction    *)
 (*            feature, thr   strategy name (= eviction policy name) and    *)
 (*                  configured priority threshold (kinds other than list)  *)
-(*            c     pod -> resource -> amount the removal of the pod       *)
-(*                  releases in terms of this task's target (absent = 0)   *)
+(*            c     pod -> resource -> amount returned by the task's own   *)
+(*                  per-pod release function (absent = 0).  For kind       *)
+(*                  "list" (the loop in isolation) these tables ARE the    *)
+(*                  input: what a pod releases for a target is the largest *)
+(*                  figure among the tasks with that target.  For the      *)
+(*                  strategy kinds they are the code's own credit and are  *)
+(*                  NOT trusted: see "what a victim releases" below        *)
+(*   strategy cases also carry  usedRes  (resource of the usage target:    *)
+(*            "cpu" / "memory") and  unit  (target units per unit of the   *)
+(*            pod usage metric: cores -> milli-cores = 1000)               *)
 (*   pod attributes (strategy kinds), as set on the pod object:            *)
 (*            qos, prio, evictLabel (value of the eviction-enabled label,  *)
 (*            "" = absent), hasPolicy/policy (eviction-policy annotation:  *)
 (*            sequence of allowed policy names), hasEp/ep (eviction-       *)
 (*            priority annotation), hasLp/lp (priority label), used (pod   *)
 (*            usage metric, 0 if none), req (request in the resource of    *)
-(*            the pod's priority class), breq (its batch-cpu request)      *)
+(*            the pod's priority class), breq (its batch-cpu request),     *)
+(*            reqRes (the resource name the request is declared under),    *)
+(*            hasMetric (a usage sample exists)                            *)
+(*   Several rounds of the entry point (cpuEvict / memoryEvict) on the     *)
+(*   same pods are a sequence of such cases: EvictTrace.tla replaces       *)
+(*   C.tasks at every round, drops the pods that are gone and derives      *)
+(*   `already` from the history (an eviction accepted in an earlier round) *)
 (*                                                                         *)
 (* Two layers:                                                             *)
 (*  property level  PropSeen / PropEvict / PropRet : what every call on    *)
@@ -44,11 +58,17 @@
 (*      on).  Used by the trace specification - verdicts come from here.   *)
 (*        (El) the victim is eligible for the task's strategy              *)
 (*        (Tw) it is not already a victim (this run or an earlier round)   *)
-(*        (St) the task's target is not yet covered by the victims         *)
+(*        (St) the task's target is not yet covered by the victims - what  *)
+(*             they REALLY free according to the input - together with the *)
+(*             pending release of every already-evicted, still present     *)
+(*             candidate that strictly precedes the new victim in the      *)
+(*             published order (the loop must have come across it)         *)
 (*        (Us) the victim releases something of what is still short        *)
 (*        (Or) no candidate that strictly precedes it in the published     *)
 (*             order has been passed over without reason (reason = tried,  *)
-(*             already a victim, or useless for what is still short)       *)
+(*             already a victim, or useless for what is still short); the  *)
+(*             candidates are the pods of the INPUT the strategy's rule    *)
+(*             admits, not only those the code put on its list             *)
 (*        (Rl) the returned ReleaseList is the sum over the victims        *)
 (*        (Pr) on return a task is left uncovered only if no remaining     *)
 (*             candidate could still help it (no premature stop)           *)
@@ -63,7 +83,7 @@ EXTENDS Integers, Sequences, FiniteSets, FiniteSetsExt, TLC, IOUtils
 
 CONSTANT SkipUseless
 
-VARIABLES cs,        \* the case (never changes)
+VARIABLES cs,        \* the case (fixed during a run of the loop; EvictTrace replaces tasks / pods when a new round begins)
           victims,   \* pods whose release counts: evicted successfully in this run, or seen to be already evicted
           tried,     \* pods on which Evict has been called in this run
           ti, pi,    \* design level: current task, current position in its list (0 = task entry check pending)
@@ -84,11 +104,23 @@ TT(C, t)     == C.tasks[t].tt
 Need(C, t)   == C.tasks[t].need
 List(C, t)   == C.tasks[t].list
 Kind(C, t)   == C.tasks[t].kind
-\* what the removal of pod p releases in terms of target type T: every task with that target carries its own
-\* function pod -> resource -> amount (absent = 0); tasks with the same target describe the same content, which
-\* counts once (the largest figure), not once per task
+\* What the removal of pod p releases in terms of target type T.
+\*  - loop in isolation (kind "list", no pod attributes): the tasks' tables are the input.  Every task with that target
+\*    carries its own function pod -> resource -> amount (absent = 0); tasks with the same target describe the same
+\*    content, possibly under different resource names, which counts once (the largest figure), not once per task
+\*  - strategy cases (pod attributes present): computed from the INPUT - the usage sample in the metric cache and the
+\*    request declared on the pod object - never from the figures the code reports (a victim whose usage the code forgot
+\*    to look up still frees that usage)
 TaskContrib(C, u, p, r) == IF p \in DOMAIN C.tasks[u].c THEN Val(C.tasks[u].c[p], r) ELSE 0
-Contrib(C, T, p, r) == Max({0} \cup {TaskContrib(C, u, p, r) : u \in {v \in TaskIds(C) : TT(C, v) = T}})
+TableContrib(C, T, p, r) == Max({0} \cup {TaskContrib(C, u, p, r) : u \in {v \in TaskIds(C) : TT(C, v) = T}})
+HasAttrs(C) == "usedRes" \in DOMAIN C
+AttrContrib(C, T, p, r) ==
+  IF p \notin DOMAIN C.pods THEN 0
+  ELSE LET a == C.pods[p]
+       IN  CASE T = "podUsed"            -> IF r = C.usedRes THEN a.used * C.unit ELSE 0
+             [] T = "podResourceRequest" -> IF r = a.reqRes THEN a.req ELSE 0
+             [] OTHER                    -> 0
+Contrib(C, T, p, r) == IF HasAttrs(C) THEN AttrContrib(C, T, p, r) ELSE TableContrib(C, T, p, r)
 Needed(C, t) == {r \in DOMAIN Need(C, t) : Need(C, t)[r] > 0}
 
 \* resources released by a set of victims, in terms of target type T
@@ -121,7 +153,8 @@ Before(C, t, x, y) ==
   LET k == Kind(C, t)
       a == C.pods[x]
       b == C.pods[y]
-  IN  CASE k = "list"      -> Pos(List(C, t), x) < Pos(List(C, t), y)
+  IN  CASE k = "list"      -> IF x \in Rng(List(C, t)) /\ y \in Rng(List(C, t))
+                              THEN Pos(List(C, t), x) < Pos(List(C, t), y) ELSE FALSE
         [] k = "prio_used" -> LexLess(<<EP(a), a.prio, LP(a), 0 - a.used>>, <<EP(b), b.prio, LP(b), 0 - b.used>>)
         [] k = "prio_req"  -> LexLess(<<EP(a), a.prio, LP(a), 0 - a.req>>, <<EP(b), b.prio, LP(b), 0 - b.req>>)
         [] k = "be_mem"    -> LexLess(<<a.prio, 0 - a.used>>, <<b.prio, 0 - b.used>>)
@@ -140,28 +173,43 @@ Eligible(C, t, p) ==
              [] k \in {"prio_used", "prio_req"} ->
                     a.prio <= C.tasks[t].thr /\ Enabled(a) /\ PolicyAllowed(a, C.tasks[t].feature)
 
+\* the candidates of task t according to the INPUT: the pods its strategy's rule admits (the priority strategies rank
+\* by a usage sample and take no pod without one); for the loop in isolation the list handed in
+Cand(C, t, p) ==
+  IF p \notin DOMAIN C.pods THEN FALSE
+  ELSE CASE Kind(C, t) = "list" -> p \in Rng(List(C, t))
+         [] Kind(C, t) \in {"be_mem", "be_cpu"} -> Eligible(C, t, p)
+         [] Kind(C, t) \in {"prio_used", "prio_req"} -> Eligible(C, t, p) /\ C.pods[p].hasMetric
+CandSet(C, t) == {p \in DOMAIN C.pods : Cand(C, t, p)}
+\* ... together with whatever else the code put on its list
+OrSet(C, t)   == CandSet(C, t) \cup Rng(List(C, t))
+\* already-evicted, still present candidates that strictly precede p in the published order of task t: whatever the
+\* code did with them, their pending release counts when p is taken ("including pods already evicted but still terminating")
+PendingBefore(C, t, p) == {x \in CandSet(C, t) : x # p /\ C.pods[x].already /\ Before(C, t, x, p)}
+
 (***************************** property level ******************************)
 \* second validation pass of segments that were rejected for the recorded finding "victims that free nothing of what is
 \* short" (known_findings.json): the clause is switched off so that the REST of such a segment is judged too
 TolerateUs == "VERIF_TOLERATE_C11_US" \in DOMAIN IOEnv
 El(C, t, p)        == Eligible(C, t, p)
 Tw(C, V, p)        == p \notin V /\ ~C.pods[p].already
-St(C, V, t)        == ~Covered(C, t, V)
+St(C, V, t, p)     == ~Covered(C, t, V \cup PendingBefore(C, t, p))
 Us(C, V, t, p)     == Useful(C, t, p, V)
-Or(C, V, Tr, t, p) == \A x \in Rng(List(C, t)) :
+Or(C, V, Tr, t, p) == \A x \in OrSet(C, t) :
                          (x # p /\ Before(C, t, x, p)) =>
                             (x \in Tr \/ x \in V \/ C.pods[x].already \/ ~Useful(C, t, x, V))
 
 \* Evict(p) issued on behalf of task t, with victims V and tried pods Tr so far
 EvictAllowed(C, V, Tr, p, t) ==
   IF t \notin TaskIds(C) \/ p \notin DOMAIN C.pods THEN FALSE
-  ELSE El(C, t, p) /\ Tw(C, V, p) /\ St(C, V, t) /\ (Us(C, V, t, p) \/ TolerateUs) /\ Or(C, V, Tr, t, p)
+  ELSE El(C, t, p) /\ Tw(C, V, p) /\ St(C, V, t, p) /\ (Us(C, V, t, p) \/ TolerateUs) /\ Or(C, V, Tr, t, p)
 
 \* the same, clause by clause (explain mode / diagnostics)
 Clauses(C, V, Tr, p, t) ==
   IF t \notin TaskIds(C) \/ p \notin DOMAIN C.pods THEN [known |-> FALSE]
-  ELSE [known |-> TRUE, El |-> El(C, t, p), Tw |-> Tw(C, V, p), St |-> St(C, V, t),
-        Us |-> Us(C, V, t, p), Or |-> Or(C, V, Tr, t, p)]
+  ELSE [known |-> TRUE, El |-> El(C, t, p), Tw |-> Tw(C, V, p), St |-> St(C, V, t, p),
+        Us |-> Us(C, V, t, p), Or |-> Or(C, V, Tr, t, p),
+        short |-> Short(C, t, V), pendingBefore |-> PendingBefore(C, t, p)]
 
 \* the loop learned (IsPodEvicted = TRUE) that p was evicted in an earlier round: its release counts from now on
 PropSeen(C, p) == /\ p \in DOMAIN C.pods
@@ -183,7 +231,7 @@ RetOK(C, V, released) ==
 \* been tried, is a victim, or frees nothing of what the task is still short of  ("stops as soon as", not before)
 PrOK(C, V, Tr) ==
   \A t \in TaskIds(C) :
-     Covered(C, t, V) \/ \A x \in Rng(List(C, t)) :
+     Covered(C, t, V) \/ \A x \in OrSet(C, t) :
                             x \in Tr \/ x \in V \/ C.pods[x].already \/ ~Useful(C, t, x, V)
 PropRet(C, released) == (RetOK(C, victims, released) /\ PrOK(C, victims, tried)) = TRUE /\ UNCHANGED pvars
 
